@@ -347,7 +347,7 @@ def expectedFlow : List (String × List (List Char)) := [
   ("sshValidAfter", ["currentEpoch".toList]),
   ("sshValidBefore", ["expireEpoch".toList]),
   ("stepUpClaims", ["parsedJWT".toList]),
-  ("stepUpCookieValue", ["state.updateAuthJWTWithNewAuthLevel(authCookie.Value, authlevel)".toList]),
+  ("stepUpCookieValue", ["state.updateAuthJWTWithNewAuthLevel(authCookie.Value, username, authlevel)".toList]),
   ("stepUpMints", []),
   ("stepUpReturns", ["jwt.Signed(signer).Claims(parsedJWT).Serialize()".toList]),
   ("stepUpWrites", ["parsedJWT.AuthType = newAuthLevel".toList]),
